@@ -23,7 +23,7 @@ OUTSIDE = "rounding and the numerical quality of SuperLU; graphs beyond the boun
 ASSUMPTIONS = ["information matrices symmetric", "vertex ids pairwise distinct", "spsolve stub returns an arbitrary vector (its contract H dx = rhs is not needed for this property)", "lil_matrix stub = dense object matrix with numpy slice-assignment semantics"]
 
 
-def _case(kinds, edges, fixed, ff):
+def _case(kinds, edges, fixed, ff, prelinearize=False):
     def fn(P, g):
         np = P.np
         env = install_stubs(P, g)
@@ -35,6 +35,11 @@ def _case(kinds, edges, fixed, ff):
                 P.check("bound_vertex", e.vertices[a] is verts[vi])
         eff_fixed = set(fixed) | ({0} if ff else set())
         b_ref, H_ref, offs, dims = reference_system(P, kinds, edges, eobjs, eff_fixed)
+        if prelinearize:
+            # the graph has been linearised before at exactly this state (as at the end of a converged run)
+            graph._fixed_gradient_indices = {v.gradient_index for i, v in enumerate(verts) if i in eff_fixed}
+            graph._calc_chi2_gradient_hessian()
+            graph.calc_chi2()
         init = [v.pose.to_array() for v in verts]
         flags = [v.fixed for v in verts]
         res = graph.optimize(tol=1e-9, max_iter=1, fix_first_pose=ff, verbose=False)
@@ -148,4 +153,6 @@ def cases(tier):
             if _name(s) not in seen:
                 seen.add(_name(s))
                 structs.append(s)
-    return [Case(_name(s), _case(*s), timeout=10, old_timeout=20, validate=1 if tier == "quick" or i >= 40 else 2, feas_timeout_ms=1000) for i, s in enumerate(structs)]
+    out = [Case(_name(s), _case(*s), timeout=10, old_timeout=20, validate=1 if tier == "quick" or i >= 40 else 2, feas_timeout_ms=1000) for i, s in enumerate(structs)]
+    out += [Case("relinearized|" + _name(s), _case(*s, prelinearize=True), timeout=10, old_timeout=20, validate=1, feas_timeout_ms=1000) for s in QUICK]
+    return out
